@@ -51,6 +51,12 @@ def gen(seed, tier):
                 spec["cleanup_async"] = rng.choice([0.1, 0.5])
             payloads.append(spec)
             ids.append(pid)
+        if rng.random() < 0.12:
+            # an asyncio payload whose clean-up fails while it is being cancelled: the runtime is going
+            # down anyway, accept() still returns normally
+            payloads.append({"id": "cr%d" % ph, "flavour": "asyncio", "phase": ph, "steps": [["block"]], "via": rng.choice(["queued", "adopt"]) if pop == "adopting" else "queued", "cleanup_raise": rng.choice(["OSError", "LookupError"])})
+            if payloads[-1]["via"] == "adopt":
+                ids.append("cr%d" % ph)
         hbid = "hb%d" % ph
         payloads.append({"id": hbid, "flavour": rng.choice(["asyncio", "trio"]), "phase": ph, "via": "queued", "steps": [["hb", 0.25, None]], "hb": True})
         script = [["wait-running"]]
@@ -69,6 +75,13 @@ def gen(seed, tier):
         if pop == "adopting":
             # adoptions in flight while the stop arrives: a second thread submits them around the same time
             adopters = [{"id": "a%d" % ph, "script": [["wait-running"]] + ([["sleep", tsd]] if (tsd and not second) else []) + [x for pid in ids for x in (["adopt", pid], ["sleep", rng.choice([0.0, 0.0, 0.01])])]}]
+        if rng.random() < 0.12:
+            # a thread that keeps handing coroutine payloads to the runner for a while, straight through the stop
+            nfl = rng.choice([20, 40])
+            for j in range(nfl):
+                payloads.append({"id": "af%d_%d" % (ph, j), "flavour": rng.choice(["asyncio", "asyncio", "trio"]), "phase": ph, "via": "adopt", "steps": [["block"]], "late": True})
+            gap = rng.choice([0.02, 0.05])
+            adopters.append({"id": "f%d" % ph, "script": [["wait-running"]] + ([["sleep", max(0.0, tsd - 0.2)]] if (tsd and not second) else []) + [x for j in range(nfl) for x in (["adopt", "af%d_%d" % (ph, j)], ["sleep", gap])]})
         end = rng.choice(["shutdown", "shutdown", "shutdown-payload", "shutdown-payload", "sigint", "fail", "fail-then-shutdown", "sigint-then-shutdown", "shutdown-twice"])
         script.append(["mark", "trigger%d" % ph])
         if end == "shutdown":
